@@ -2075,6 +2075,26 @@ func (t *tr) block(stmts []ast.Stmt, k cont) string {
 				return "(match " + t.expr(x.Rhs[0]) + " with\n" + t.pad() + "| " + t.wpat(x.Rhs[0], ".error err") + " => " + errBranch + "\n" + t.pad() + "| " + t.wpat(x.Rhs[0], ".ok "+t.okPattern(x.Rhs[0], "_")) + " =>\n" + t.pad() + t.takePost() + cont() + ")"
 			}
 		}
+		// err := f(...)  followed by  if err == nil {...}   under FuncSpec.ErrNilConst (where `err == nil` is a constant of the enclosing
+		// match branch, so err must never become a let-bound value: without this rule the test was translated to `true`)
+		if t.spec.ErrNilConst && len(x.Lhs) == 1 && len(x.Rhs) == 1 && exprString(x.Lhs[0]) == "err" && len(stmts) > 1 {
+			if ifs, ok := stmts[1].(*ast.IfStmt); ok && ifs.Init == nil && ifs.Else == nil && isErrIsNil(ifs.Cond) {
+				call := x.Rhs[0]
+				okPat := t.okPattern(call, "_")
+				post := t.takePost()
+				t.indent++
+				saved := t.errInScope
+				t.errInScope = false
+				okTail := memo(func() string { return t.block(stmts[2:], k) })
+				okB := t.block(ifs.Body.List, okTail)
+				t.errInScope = true
+				errB := t.block(stmts[2:], k)
+				t.errInScope = saved
+				t.indent--
+				return "(match " + t.expr(call) + " with\n" + t.pad() + "| " + t.wpat(call, ".ok "+okPat) + " =>\n" + t.pad() + "  " + post + okB + "\n" + t.pad() +
+					"| " + t.wpat(call, ".error err") + " =>\n" + t.pad() + "  " + errB + ")"
+			}
+		}
 		// x := make([]T, len(xs)); for i, p := range xs { x[i] = T(p) }     ->  let x := Go.mapList xs (fun p => p)
 		if len(x.Lhs) == 1 && len(x.Rhs) == 1 && len(stmts) > 1 {
 			if src, v, conv, ok := t.convertLoop(x, stmts[1]); ok {
